@@ -193,3 +193,38 @@ Theorem C06_iter_satisfiable :
   from_disk_iter lid FAll (Some 3) ex_tree = ItSymlinkTooLarge /\ from_disk id_ord FAll (Some 3) ex_tree = FdSymlinkTooLarge.
 Proof. exact iter_example. Qed.
 Print Assumptions C06_iter_satisfiable.
+
+(* ---------------------------------------------------------------------------
+   Cross-model consistency C06 x C01 (proofs/CrossModelDiskHash.v).  The leaf
+   ids used above ([blob_id], [mt_id] of the [MLeaf] built by [from_file]) are
+   the sha1_git values that the content-hashing model of C01
+   (model/Hashutil.v: [disk_from_file] = from_disk.Content.from_file, through
+   MultiHash, any read schedule [sched]) computes for the same object.
+   Hashutil quantifies over H : algorithm name -> data -> digest, this model
+   over one function standing for SHA-1: the bridge instantiates it with
+   [H "sha1"], for EVERY H.  For every regular file, symbolic link and special
+   file [t] ([fsobj_of t sched] is the same object in Hashutil's vocabulary)
+   and every size limit: either both raise (a link longer than the limit), or
+   C01's route returns the content record [expected H data] with the same
+   "absent" (skipped) flag and length, and the leaf's Merkle id - equally the
+   specification id [node_id] - is that record's sha1_git, the hash of
+   Hashutil's [blob_manifest] = "blob <len>\0<data>". *)
+From SWH.model Require Hashutil.
+From SWH.proofs Require Import CrossModelDiskHash.
+
+Theorem C06_leaf_ids_are_C01_blob_ids : forall (H : bytes -> bytes -> bytes),
+  (forall d, blob_id (H Hashutil.SHA1) d = H Hashutil.SHA1 (Hashutil.blob_manifest d)) /\
+  (forall (t : fsnode) (sched : list nat) (limit : option N), is_fdir t = false ->
+     match from_file limit t with
+     | FdOk ci =>
+         exists c, Hashutil.disk_from_file H (fsobj_of t sched) limit = Hashutil.Ok (c, ci_skipped ci)
+           /\ c = Hashutil.expected H (ci_data ci)
+           /\ mt_id (H Hashutil.SHA1) (MLeaf ci) = Hashutil.c_sha1_git c
+           /\ mt_id (H Hashutil.SHA1) (MLeaf ci) = H Hashutil.SHA1 (Hashutil.blob_manifest (ci_data ci))
+           /\ node_id (H Hashutil.SHA1) t = Hashutil.c_sha1_git c
+           /\ Hashutil.c_length c = lenN (ci_data ci)
+     | FdSymlinkTooLarge =>
+         Hashutil.disk_from_file H (fsobj_of t sched) limit = Hashutil.Err Hashutil.OtherException
+     end).
+Proof. exact leaf_ids_are_C01_blob_ids. Qed.
+Print Assumptions C06_leaf_ids_are_C01_blob_ids.
